@@ -334,12 +334,26 @@ func partRelays(run *ev.Run) (evals int) {
 						}
 						evals++
 						sk := &scriptedSyncer{scripted{n: n, err: werr}}
-						ws := &zapcore.BufferedWriteSyncer{WS: sk, Size: size, FlushInterval: time.Hour}
+						ws := &zapcore.BufferedWriteSyncer{WS: sk, Size: size, FlushInterval: time.Hour, Clock: quietClock{make(chan time.Time)}}
 						desc := fmt.Sprintf("BufferedWriteSyncer{Size:%d} with %d bytes buffered, Write of %d bytes, sink outcome=(%d,%v)", size, pre, plen, n, werr)
-						if pre > 0 {
-							_, _ = ws.Write(bytes.Repeat([]byte{'p'}, pre))
+						var gn int
+						var gerr error
+						// under the controlled scheduler: whatever the sink answered, the calls that follow (another
+						// Write, Sync, Stop) must return - a lock kept on an error path is a deadlock verdict here
+						res := vsched.Run(nil, func() {
+							if pre > 0 {
+								_, _ = ws.Write(bytes.Repeat([]byte{'p'}, pre))
+							}
+							gn, gerr = ws.Write(bytes.Repeat([]byte{'x'}, plen))
+							_, _ = ws.Write([]byte{'y'})
+							_ = ws.Sync()
+							_ = ws.Stop()
+						})
+						if res.Verdict != vsched.OK {
+							what := map[int]string{vsched.Deadlock: "deadlocked", vsched.Panicked: "panicked", vsched.Leaked: "left its flush goroutine behind", vsched.Stuck: "got stuck"}[res.Verdict]
+							run.Report("relay:buffered:"+what, fmt.Sprintf("%s: the Write / Write / Sync / Stop sequence %s (%v %s)", desc, what, res.PanicVal, res.Blocked), desc)
+							continue
 						}
-						gn, gerr := ws.Write(bytes.Repeat([]byte{'x'}, plen))
 						switch {
 						case gn > plen || gn < 0:
 							run.Report("relay:buffered:count-out-of-range", fmt.Sprintf("%s returned (%d,%v)", desc, gn, gerr), desc)
@@ -348,7 +362,6 @@ func partRelays(run *ev.Run) (evals int) {
 						case n == -1 && werr == nil && (gn != plen || gerr != nil):
 							run.Report("relay:buffered:healthy-sink", fmt.Sprintf("%s returned (%d,%v), want (%d,nil)", desc, gn, gerr, plen), desc)
 						}
-						_ = ws.Stop()
 					}
 				}
 			}
@@ -356,6 +369,12 @@ func partRelays(run *ev.Run) (evals int) {
 	}
 	return
 }
+
+// quietClock: a clock whose ticker never fires.
+type quietClock struct{ ch chan time.Time }
+
+func (quietClock) Now() time.Time                         { return time.Unix(0, 0) }
+func (c quietClock) NewTicker(time.Duration) *time.Ticker { return &time.Ticker{C: c.ch} }
 
 // ---------------------------------------------------------------------------
 // part 3: multi write syncer outcome vectors
